@@ -216,7 +216,9 @@ func (impl Implementation) Dggsvp3(jobU, jobV, jobQ lapack.GSVDJob, m, p, n int,
 	}
 
 	// Update A12 := Uᵀ*A12, where A12 = A[0:m, n-l:n].
-	impl.Dorm2r(blas.Left, blas.Trans, m, l, min(m, n-l), a, lda, tau[:min(m, n-l)], a[n-l:], lda, work)
+	if m > 0 {
+		impl.Dorm2r(blas.Left, blas.Trans, m, l, min(m, n-l), a, lda, tau[:min(m, n-l)], a[n-l:], lda, work)
+	}
 
 	if wantu {
 		// Copy the details of U, and form U.
